@@ -341,6 +341,13 @@ func runC12Attempt(base storeCase, a c12Attempt) (f *vstat.Failure, hit bool) {
 				return
 			}
 		}
+		// a program (re)load registers metrics, the GC walks the store: both
+		// need the store's own lock, which every export path holds while it runs
+		if err := store.Add(metrics.NewMetric("after_load", "afterprog", metrics.Counter, metrics.Int)); err != nil {
+			follow <- err
+			return
+		}
+		_ = store.Gc()
 		_ = sc.Exp.VerifWriteSocketMetrics(&faultWriter{}, "statsd")
 		if peer != nil {
 			sc.Exp.PushMetrics()
@@ -352,7 +359,7 @@ func runC12Attempt(base storeCase, a c12Attempt) (f *vstat.Failure, hit bool) {
 	select {
 	case err := <-follow:
 		if err != nil {
-			return vstat.Failf("harness", "follow-up GetDatum: %v", err), hit
+			return vstat.Failf("harness", "follow-up GetDatum/Add: %v", err), hit
 		}
 	case <-time.After(20 * time.Second):
 		return vstat.Failf("processing-stalls:"+sigSuffix, "after %+v follow-up processing/exports did not complete", a), hit
